@@ -80,7 +80,8 @@ def _make_variant(rng, seq, pos, kinds):
 
 
 def gen_core(rng, n_chroms=None, n_samples=None, length=None, n_variants=None, ploidy=2,
-             kinds=None, het_rate=None, min_gap=15, homopolymers=0, sample_names=None, first_base_variant=0.0):
+             kinds=None, het_rate=None, min_gap=15, homopolymers=0, sample_names=None, first_base_variant=0.0,
+             pos_coincidence=0.0):
     """reference, samples, core records with unphased sorted GT, main truth"""
     n_chroms = n_chroms or rng.choice([1, 1, 2])
     n_samples = n_samples or rng.choice([1, 2, 2, 3])
@@ -93,14 +94,21 @@ def gen_core(rng, n_chroms=None, n_samples=None, length=None, n_variants=None, p
     chroms = []
     records = []
     truth = {s: [[] for _ in range(ploidy)] for s in samples}
+    prev_last = None
     for ci in range(n_chroms):
         L = length or rng.choice([300, 600, 1000, 1500, 3000])
+        if pos_coincidence and ci > 0 and prev_last is not None:
+            L = max(L, prev_last + 400)
         seq = rand_seq(rng, L, homopolymers)
         chroms.append({"name": chrom_names[ci], "seq": seq})
         nv = n_variants or rng.choice([3, 4, 6, 8, 12, 18, 25])
         positions = _pick_positions(rng, L, nv, min_gap)
+        if pos_coincidence and ci > 0 and prev_last is not None and rng.random() < pos_coincidence and prev_last + 2 * min_gap < L - 25:
+            # the first variant of this chromosome sits at the POS of the last variant of the previous chromosome
+            positions = [prev_last] + [q for q in positions if q >= prev_last + min_gap]
         if first_base_variant and rng.random() < first_base_variant and (not positions or positions[0] >= min_gap):
             positions = [0] + positions  # a variant at POS 1: its phase set gets the smallest possible id
+        prev_last = positions[-1] if positions else None
         for pos in positions:
             ref, alt = _make_variant(rng, seq, pos, kinds if pos > 0 else ["snv"])
             calls = {}
@@ -229,6 +237,8 @@ def vcf_header_lines(world):
     for ch in world["chroms"]:
         if world.get("no_contig_lines"):
             break  # legal in VCF 4.2: contig lines are recommended, not required
+        if ch["name"] in world.get("omit_contig_lines", ()):
+            continue  # ... and a header may declare some contigs only
         if ("##contig=<ID=%s," % ch["name"]) not in have and ("##contig=<ID=%s>" % ch["name"]) not in have:
             lines.append("##contig=<ID=%s,length=%d>" % (ch["name"], len(ch["seq"])))
     fmt = set()
